@@ -101,7 +101,7 @@ def generate(rng, tier):
         S = rng.choice(["Q", "F", "I"])
         two = rng.random() < 0.3
         def axis(n):
-            return gen.axis_q(rng, n) if S == "Q" else gen.axis_f(rng, n, rng.choice(["random", "uniform", "geometric", "unit"])) if S == "F" else gen.axis_i(rng, n)
+            return gen.axis_q(rng, n) if S == "Q" else gen.axis_f(rng, n, rng.choice(["random", "uniform", "geometric", "unit", "indexlike"])) if S == "F" else gen.axis_i(rng, n)
         def sweep(ax):
             qs = []
             for a, b in zip(ax, ax[1:]):
